@@ -24,11 +24,11 @@ def run(name):
         if b.returncode!=0: return (name,'nobuild',b.stderr[:200])
         v=subprocess.run(['go','vet','-vettool=/bin/true','./...'],cwd=d,env=ENV,capture_output=True,text=True)  # compile tests too
         bad=[]
-        for p in PROPS:
-            r=subprocess.run(['/verif/bin/limecheck','-root',d,'-property',p,'-evidence','none'],capture_output=True,text=True)
-            if r.returncode!=0:
-                first=[l for l in r.stdout.split('\n') if ': C' in l][:1]
-                bad.append((p,first[0][:160] if first else r.stderr[:160]))
+        r=subprocess.run(['/verif/bin/limecheck','-root',d,'-property','all','-evidence','none'],capture_output=True,text=True)
+        if r.returncode!=0:
+            for l in [l for l in r.stdout.split('\n') if ': C' in l and 'KNOWN' not in l][:3]:
+                bad.append((l.split(': ')[1].split('.')[0] if ': ' in l else '?', l[:200]))
+            if not bad: bad.append(('?',r.stderr[:200]))
         return (name,'ok' if not bad else 'ALARM',bad)
     finally:
         shutil.rmtree(d,ignore_errors=True)
